@@ -1,5 +1,5 @@
 #!/venv/bin/python
-"""Applies every seeded defect in /verif/seeded to /repo (working tree only), runs all quick checks, restores the tree,
+"""Applies every seeded defect in /verif/seeded to a scratch working tree of /repo's HEAD, runs all quick checks against it,
 and writes seeded/<id>/meta.json plus seeded/RESULTS.md.  Developer tool — not a registered check."""
 import json, os, re, subprocess, sys
 from concurrent.futures import ThreadPoolExecutor
@@ -45,10 +45,43 @@ NEEDS = {
 }
 def sh(cmd, **kw):
     return subprocess.run(cmd, shell=True, capture_output=True, text=True, **kw)
+def par_map(fn, items):
+    """Run fn(item, worktree) over the items on N scratch worktrees of /repo's HEAD (default 4; -jN), each check pointed at its worktree
+    through VERIF_REPO; the worktrees live under /tmp and are removed at the end.  /repo itself is not touched."""
+    import queue, threading
+    jobs = next((int(a[2:]) for a in sys.argv[1:] if a.startswith("-j")), 4)
+    jobs = max(1, min(jobs, len(items)))
+    q = queue.Queue()
+    for i, it in enumerate(items):
+        q.put((i, it))
+    out = [None] * len(items)
+    wts = [f"/tmp/vp-par-{os.getpid()}-{k}" for k in range(jobs)]
+    for wt in wts:
+        sh(f"git -C /repo worktree add -q --detach {wt} HEAD")
+    def worker(wt):
+        while True:
+            try:
+                i, it = q.get_nowait()
+            except queue.Empty:
+                return
+            try:
+                out[i] = fn(it, wt)
+            except Exception as e:
+                print(it, "RUNNER ERROR", e, flush=True)
+    try:
+        ts = [threading.Thread(target=worker, args=(wt,)) for wt in wts]
+        [t.start() for t in ts]
+        [t.join() for t in ts]
+    finally:
+        for wt in wts:
+            sh(f"git -C /repo worktree remove --force {wt}")
+        sh("git -C /repo worktree prune")
+    return [o for o in out if o is not None]
 def main():
     seeds = sorted(d for d in os.listdir(f"{V}/seeded") if os.path.isfile(f"{V}/seeded/{d}/patch.diff"))
-    if len(sys.argv) > 1:
-        seeds = [s for s in seeds if s in sys.argv[1:]]
+    args = [a for a in sys.argv[1:] if not a.startswith('-j')]
+    if args:
+        seeds = [s for s in seeds if s in args]
     confirm = {}
     if os.path.exists(f"{V}/seeded/CONFIRM.log"):
         for l in open(f"{V}/seeded/CONFIRM.log"):
@@ -57,32 +90,32 @@ def main():
                 confirm[m.group(1)] = m.group(2).strip()
     if sh("git -C /repo diff --quiet").returncode != 0:
         print("/repo dirty"); return 2
-    rows = []
-    for s in seeds:
+    def one(s, wt):
         prop = s.split("-")[0]
-        r = sh(f"git -C /repo apply {V}/seeded/{s}/patch.diff")
+        r = sh(f"git -C {wt} apply {V}/seeded/{s}/patch.diff")
         if r.returncode != 0:
-            rows.append((s, prop, "PATCH DOES NOT APPLY", [])); continue
+            return (s, prop, "PATCH DOES NOT APPLY", [])
         def run(c):
-            o = sh(f"cd {V} && ./check {c} quick")
+            o = sh(f"cd {V} && VERIF_REPO={wt} ./check {c} quick")
             rules = sorted(set(re.findall(r"^  (C\d+\.[A-Za-z0-9]+) ", o.stdout, re.M)))
             return c, o.returncode, rules
-        with ThreadPoolExecutor(8) as ex:
+        with ThreadPoolExecutor(5) as ex:
             res = list(ex.map(run, PROPS))
-        sh("git -C /repo checkout -- .")
+        sh(f"git -C {wt} checkout -- . && git -C {wt} clean -fdq")
         det = [(c, rc, rules) for c, rc, rules in res if rc != 0]
         own = next((x for x in res if x[0] == prop), None)
-        rows.append((s, prop, own, det))
         meta = {"seed": s, "breaks_property": prop, "needs_to_manifest": NEEDS.get(s, "see notes.md"),
                 "files": {"patch": "patch.diff", "demonstration": "demo.py", "notes": "notes.md"},
                 "confirmed_in_scratch_worktree": confirm.get(s, "see seeded/CONFIRM.log"),
                 "ran": ["tools/confirm_seed.sh seeded/%s (suite with patch: 133 pass; demo with patch: exit 1; demo without: exit 0)" % s,
-                        "tools/run_seeds.py %s (git -C /repo apply; ./check <all> quick; git -C /repo checkout -- .)" % s],
+                        "tools/run_seeds.py %s (patch applied to a working tree of /repo's HEAD; ./check <all> quick against it; tree restored)" % s],
                 "own_check": {"exit": own[1], "rules": own[2]} if own else None,
                 "detected_by": {c: {"exit": rc, "rules": rules} for c, rc, rules in det}}
         json.dump(meta, open(f"{V}/seeded/{s}/meta.json", "w"), indent=1)
-        print(s, "own:", own[1:], "| all:", [(c, rc) for c, rc, _ in det])
-    if len(sys.argv) > 1:
+        print(s, "own:", own[1:], "| all:", [(c, rc) for c, rc, _ in det], flush=True)
+        return (s, prop, own, det)
+    rows = par_map(one, seeds)
+    if args:
         return 0
     with open(f"{V}/seeded/RESULTS.md", "w") as f:
         f.write("# Seeded defects vs. checks (quick tier)\n\n| seed | property | own check exit | rules firing in own check | other checks firing |\n|---|---|---|---|---|\n")
